@@ -82,6 +82,11 @@ type concExec struct {
 
 func (x *concExec) fail(rule, sub, msg string) {
 	if x.viol == nil {
+		if x.plan.Prop == "C13" && x.plan.Extra["autoMerge"] == 1 {
+			// worlds in which the hint dumper may start a hint merge: recorded finding
+			// KF-C13-collide-automerge can act
+			sub = "collide-automerge:" + sub
+		}
 		x.viol = &Violation{Prop: x.plan.Prop, Rule: rule, Sub: sub, Msg: msg}
 	}
 }
@@ -171,6 +176,16 @@ func genConcPlan(prop string, seed uint64, tier string) *Plan {
 			pos += sz
 		}
 		p.Extra["benignCollide"] = 1
+		// the hint dumper starts a hint merge on its own when the head is more than merge_interval
+		// chunks ahead of the last merge; lookups by key then miss hint items that were not in a
+		// dumped split at that moment (recorded finding KF-C13-collide-automerge): out of reach in
+		// five worlds of six
+		if r.Bool(1, 6) {
+			p.Extra["autoMerge"] = 1
+			c.MergeInterval = 1
+		} else {
+			c.MergeInterval = 1000
+		}
 	}
 	nClients := r.Range(2, 16)
 	if prop == "C13" {
